@@ -699,7 +699,7 @@ func (g *c20Gen) tree() *c20Tree {
 	}
 	goNames := []string{"a.go", "b.go", "bootstrap.go", "panic.go", "test.go", "contest.go", "x_test_amd64.go", "my_testing.go", "z9.go", "test_.go", "UPPER.go"}
 	testNames := []string{"a_test.go", "bootstrap_test.go", "export_test.go", "x_amd64_test.go"}
-	otherNames := []string{"old.go.bak", "gen.go.tmpl", "rt0.s", "notes.txt", "go", "x.goo", "Makefile", "y.GO"}
+	otherNames := []string{"old.go.bak", "gen.go.tmpl", "rt0.s", "notes.txt", "go", "x.goo", "Makefile", "y.GO", "_notes.txt", "testdata", "_", ".hidden", "vendor", "_obj.txt"} // plain files, whatever their names mean to the go tool as directory names
 	sparse := r.Chance(1, 6) // trees with very few annotations (including none)
 	for _, d := range t.dirs {
 		if len(d) > t.maxDep {
@@ -741,7 +741,7 @@ func (g *c20Gen) tree() *c20Tree {
 				t.files = append(t.files, f)
 			}
 		}
-		if r.Chance(1, 4) {
+		if r.Chance(1, 3) {
 			if n := pick(otherNames); n != "" {
 				f := c20File{rel: rel + n, goSrc: true} // valid Go text, wrong extension
 				f.lines = g.source(d, false, "nongo-file", 2)
